@@ -154,7 +154,7 @@ class Machine:
                     nxt = self.target(lib.dec(v(n.body[4])))
             elif k == "jumplink":
                 rd, tgt = int(v(n.body[2])), lib.dec(v(n.body[3]))
-                if tgt == "__return__" and dump.is_return_merge(n) and n.nexts:
+                if tgt == "<return>" and dump.is_return_merge(n) and n.nexts:
                     nxt = n.nexts[0]        # a merged return: continue at the function's exit
                 elif rd == 1:
                     t = self.target(tgt)
